@@ -432,7 +432,11 @@ def run(ctx):
         nonlin = (delta ** 2 / min(legs)) if legs else 0.0
         ctol = 5e-5 + 10 * nonlin
         ctx.hist("nonlinearity_allowance_m", "%.0e" % (10 * nonlin))
-        if ref["ssq"] > 1e-3 + len(net["obs"]) * (1e4 * nonlin) ** 2:
+        # the vertical of a displaced station turns by d / R: a first-order term the coefficients of zenith and horizontal angles
+        # do not carry (the same allowance as in linearisation_defects), weighted by sigma0 = 10 and the stdev of the angle [cc]
+        curv = sum((10 * 636620 * 1.5 * delta / 6.3e6 / (covs[k][0] / 10)) ** 2 for k, (t_, a_, b_) in enumerate(net["obs"]) if t_ in ("zenith", "angle"))
+        ctx.hist("ssq_allowance_vertical_turn", "%.0e" % curv)
+        if ref["ssq"] > 1e-3 + len(net["obs"]) * (1e4 * nonlin) ** 2 + curv:
             dd.append("sum of squares %.3e for consistent observations" % ref["ssq"])
         unconstrained_translation = net["datum"] == "constr" and not any(o[0] == "xyz" for o in net["obs"])
         for pid, p in net["pts"].items():
